@@ -3,14 +3,17 @@ import GqlModel.Format.Quote
 import GqlModel.Validate.Suggest
 /-
   Library functions the rule bodies call: `strconv.Quote`, `strconv.ParseInt` (error class
-  only), `strconv.ParseFloat` (range error only), `Value.String()`, and the error result of
-  `Value.Value(nil)`.
+  only), `strconv.ParseFloat` (error class only), `Value.String()`, and the error result of
+  `Value.Value(nil)` (since the repair of R15: SYNTAX errors of leaves only — number literals of
+  any magnitude convert).
 
   Trusted-base notes (each is exercised by the correspondence run, none is proved):
   * `isPrint` is `strconv.IsPrint` exactly on ASCII and an APPROXIMATION beyond (a short list of
     non-printable ranges instead of the Unicode tables).
-  * `floatRangeErr` decides "|x| rounds beyond MaxFloat64" by exact integer arithmetic on the
-    decimal text; Go's parser agrees except possibly for mantissas of more than 800 digits.
+  * `floatStatus` decides "|x| rounds beyond MaxFloat64" by exact integer arithmetic on the
+    decimal text; Go's parser agrees except possibly for mantissas of more than 800 digits.  It
+    knows decimal texts only (`[+-]?digits(.digits)?([eE][+-]?digits)?`): the other texts
+    `ParseFloat` accepts (hex floats, `inf`, `nan`, `_`) are classed `.syntax`; no lexer produces them.
 -/
 namespace Gql.Validate
 open Gql
@@ -89,8 +92,8 @@ def parseIntErr (bits : Nat) (raw : Bytes) : NumErr :=
 
 def natOfDigits (ds : List Nat) : Nat := ds.foldl (fun a c => a * 10 + (c - 48)) 0
 
-/-- `strconv.ParseFloat(raw, 64)` returns an error (syntax or range) -/
-def floatErr (raw : Bytes) : Bool :=
+/-- error class of `strconv.ParseFloat(raw, 64)` -/
+def floatStatus (raw : Bytes) : NumErr :=
   let body := match raw with
     | 45 :: r => r
     | 43 :: r => r
@@ -100,7 +103,7 @@ def floatErr (raw : Bytes) : Bool :=
   let (frac, r2, hasDot) : Bytes × Bytes × Bool := match r1 with
     | 46 :: r => (r.takeWhile isDigit, r.dropWhile isDigit, true)
     | r => ([], r, false)
-  if intPart.isEmpty && frac.isEmpty then true
+  if intPart.isEmpty && frac.isEmpty then .syntax
   else
     let expInfo : Option (Bool × Bytes) := match r2 with
       | [] => some (false, [])
@@ -114,22 +117,27 @@ def floatErr (raw : Bytes) : Bool :=
         else none
     let _ := hasDot
     match expInfo with
-    | none => true
+    | none => .syntax
     | some (eneg, eds) =>
       let mant := (intPart ++ frac).dropWhile (· = 48)
-      if mant.isEmpty then false
+      if mant.isEmpty then .none
       else
         -- value = mant × 10^(e − frac.length); position of the decimal point after the first digit
         let e : Int := if eneg then -(natOfDigits eds : Int) else natOfDigits eds
         let p : Int := (mant.length : Int) + e - frac.length
-        if p > 310 then true
-        else if p < 300 then false
+        if p > 310 then .range
+        else if p < 300 then .none
         else
           -- exact: mant·10^(e−fl) ≥ 2^1024 − 2^970  (halfway to 2^1024 rounds to even = overflow)
           let thr : Nat := 2 ^ 1024 - 2 ^ 970
           let sh : Int := e - frac.length
           let m := natOfDigits mant
-          if sh ≥ 0 then decide (m * 10 ^ sh.toNat ≥ thr) else decide (m ≥ thr * 10 ^ (-sh).toNat)
+          let over : Bool := if sh ≥ 0 then decide (m * 10 ^ sh.toNat ≥ thr) else decide (m ≥ thr * 10 ^ (-sh).toNat)
+          if over then .range else .none
+
+/-- `f, err := strconv.ParseFloat(raw, 64); err != nil || math.IsInf(f, 0)` (for the decimal texts
+    `floatStatus` knows, `f` is infinite exactly when `err` is the range error) -/
+def floatErr (raw : Bytes) : Bool := floatStatus raw != .none
 
 mutual
   /-- `Value.String()` -/
@@ -157,8 +165,9 @@ mutual
   def constErr : Value → Bool
     | .mk k raw ch _ =>
       match k with
-      | .int => parseIntErr 64 raw != .none
-      | .float => floatErr raw
+      -- beyond int64 / float64 is no error any more (the float64 of the text; ±Inf)
+      | .int => parseIntErr 64 raw == .syntax
+      | .float => floatStatus raw == .syntax
       | .boolean => !(raw == str "true" || raw == str "false" || raw == str "1" || raw == str "0" || raw == str "t"
           || raw == str "f" || raw == str "T" || raw == str "F" || raw == str "TRUE" || raw == str "FALSE"
           || raw == str "True" || raw == str "False")
